@@ -10,7 +10,7 @@ Definition ss_M : Z := 2 ^ 41.
 Definition ss_freq_ok (f : Z) : Prop := 0 <= f < 2 ^ 32.
 
 Definition ss_op_ok (o : ss_op) : Prop :=
-  match o with Protect => True | Crash f => ss_freq_ok f end.
+  match o with SsProtect => True | SsCrash f => ss_freq_ok f end.
 
 (* invariant after [d] steps *)
 Definition ss_inv (y : ss_sys) (d : Z) : Prop :=
@@ -51,7 +51,7 @@ Lemma ss_step_inv : forall y d o,
 Proof.
   intros y d o Hinv Hd Hb Ho.
   destruct o as [|f].
-  - (* Protect *)
+  - (* SsProtect *)
     destruct Hinv as (Hf & Hn & Hs & Hq & Hcase).
     unfold ss_step, ss_protect, ss_two64.
     unfold ss_M in *.
@@ -71,7 +71,7 @@ Proof.
         unfold ss_M. repeat split; try lia.
       * unfold ss_inv, ss_lb. cbn [ss_cur ss_saved ss_seq ss_next ss_freq].
         unfold ss_M. repeat split; try lia.
-  - (* Crash: restart from what is on stable storage *)
+  - (* SsCrash: restart from what is on stable storage *)
     cbn [ss_step]. cbn [ss_op_ok] in Ho.
     destruct Hinv as (Hf & Hn & Hs & Hq & Hcase).
     split; [apply ss_boot_inv; try lia; exact Ho|].
